@@ -1,18 +1,27 @@
 """C04 - a reactor saved to the database loads back observationally equal.
 
-Theorems: lean/ArmiVerif/Props/C04.lean over Model/Layout.lean (flatten / compose / indexInData / locations / grids).
+Theorems: lean/ArmiVerif/Props/C04.lean over Model/Layout.lean (flatten / compose / indexInData / locations / grids /
+         the layout columns of the file / several statepoints in one file / parameter assignment order on load).
 Tie (i): Model/Layout.lean vs the real Layout(comp=r) arrays, the real layout datasets of the written file,
-         the real _unpackLocations and computeAncestors, on every reactor state the run produces.
+         the real _unpackLocations (well-formed and malformed streams) and computeAncestors, sorted(children) for both
+         __lt__ implementations, getH5GroupName, write/load histories on one real file, _initComps + _readParams +
+         _assignBlueprintsParams, on every reactor state the run produces.
 Tie (ii) = implementation-side oracle on the real stack: shipped inputs -> random assignments to FREE
          parameters + API edits -> Database.writeToDB (real HDF5 file in a scratch dir) -> Database.load ->
          canonical dump of both reactors compared; load twice; save the loaded reactor and load again.
+         Streams: seeded edit rounds per shipped input; blueprints that ASSIGN parameters + values changed after
+         construction (C04-a); every-parameter sweep; several statepoints in ONE file with layout-borne edits and tree
+         changes in between, each loaded and compared with the state at ITS write, a loaded reactor saved into the same
+         file (C04-b); excluded points.
 """
 import contextlib
 import json
 import logging
 import math
 import os
+import random
 import struct
+import sys
 
 import numpy as np
 
@@ -21,18 +30,23 @@ from harness.common import Failure, lean_run
 from harness.c05 import noncontig, norm_value
 
 PROP_MODULES = ["ArmiVerif.Props.C04"]
-PARTIAL = ("theorems cover the layout / locator / index / grid-table logic, child order (load(save t) = t sorted; = t iff "
-           "sorted: F12 exactly) and, composed with C05's model, that every object reads back its own parameter value "
-           "(save_load_param_own); "
+PARTIAL = ("theorems cover the layout / locator / index / grid-table logic incl. the round trip on the file's columns "
+           "(cols_roundtrip), child order (load(save t) = t sorted; = t iff sorted: F12 exactly), statepoint independence in a "
+           "multi-statepoint file (multi_statepoint_roundtrip), the parameter assignment order on load (saved value, not "
+           "blueprint value: load_param_saved_not_blueprint) and, composed with C05's model, that every object reads back "
+           "its own parameter value (save_load_param_own); "
            "h5py, blueprint re-construction of components, material lookup, grids' reduce() and the child sort "
            "key are parameters (checked by the whole-stack oracle only). Reachable states: arbitrary values are "
            "assigned only to FREE parameters (not recomputed on load, not identities, not settings-owned); derived "
            "ones change through the API only. Generated blueprints are replaced by the five shipped inputs "
            "(hex third core with pin lattices and SFP, smallest hex, Cartesian c5g7, theta-RZ godiva, axial-expansion fixture)")
 ASSUMPTIONS = [
-    "child order: ArmiObject.__lt__ = lexicographic (k, j, i) of the complete indices is modelled (armiLt) and compared with "
-    "sorted(children) for every non-component child list; Component.__lt__ (bounding circle) is a parameter: the theorems hold "
-    "for any asymmetric order, the flatten correspondence takes sorted(list(comp)) as given",
+    "child order: ArmiObject.__lt__ = lexicographic (k, j, i) of the complete indices (armiLt) and Component.__lt__ = (cold "
+    "bounding-circle outer diameter, then inner diameter) (compLt) are modelled, proved asymmetric and compared with "
+    "sorted(children) for every child list; the two diameter getters are parameters (their values enter as exact rationals); "
+    "the flatten correspondence takes sorted(list(comp)) as given",
+    "one HDF5 file = a map from group name to statepoint; h5py stores each group independently of the others (checked by "
+    "write/load histories on a real file and by the multi-statepoint oracle)",
     "equal grid keys <=> equal (grid class, reduce()) tuples (Python tuple equality/hash)",
     "index components survive float64 storage and int() (|i| < 2^53)",
 ]
@@ -54,6 +68,9 @@ DERIVED = {
 
 # numeric parameters the public bookkeeping API reads as numbers (setBlockMassParams: `molesHmBOL > 0`): never unset
 NONE_UNSAFE = {"molesHmBOL", "massHmBOL"}
+# label <-> number pairs coupled by their setters (an arbitrary string / number is not a valid label): the every-parameter
+# sweep leaves them alone (random rounds still step the numbers)
+SWEEP_SKIP = {"xsType", "xsTypeNum", "envGroup", "envGroupNum"}
 
 FIXTURES = {
     "smallest": ("smallestTestReactor", "armiRunSmallest.yaml"),
@@ -519,6 +536,36 @@ def mutate(rng, o, r, nobj, ops):
                     ops.append(["setNumberDensity", i, nuc, v])
         except Exception:  # noqa: BLE001
             continue
+    # COLD DIMENSIONS changed after construction (swelling / wear): the blueprint holds the as-built value, the saved
+    # state another one; outer dimensions shrink slightly so that neighbours never overlap
+    for i, c in rng.sample(comps, min(3, len(comps))):
+        names = [d for d in c.DIMENSION_NAMES if d in ("od", "op", "widthOuter", "lengthOuter")
+                 and isinstance(c.p[d], (int, float, np.integer, np.floating)) and not isinstance(c.p[d], (bool, np.bool_)) and c.p[d] > 0]
+        if not names or rng.random() < 0.4:
+            continue
+        d = rng.choice(names)
+        old = c.p[d]
+        v = float(old) * rng.choice([0.9921875, 0.984375, 0.998046875])
+
+        def nneg(par):
+            par.clearCache()
+            n = 0
+            for k in par:
+                with contextlib.suppress(Exception):
+                    n += k.getVolume() < 0
+            return n
+
+        try:
+            before = nneg(c.parent) if c.parent is not None else 0
+            c.setDimension(d, v, cold=True)
+            c.clearCache()
+            if c.parent is not None and nneg(c.parent) > before:
+                c.setDimension(d, old, cold=True)      # a neighbour would be squeezed to a negative volume: not a valid model
+                c.parent.clearCache()
+                continue
+            ops.append(["setDimension", i, d, v])
+        except Exception:  # noqa: BLE001
+            continue
     # number-density DICTS with other key sets than the rest of the class (setNumberDensities wipes the old keys):
     # same length / different keys, one shared key, disjoint, differing length, other key order, empty
     byclass = {}
@@ -735,6 +782,25 @@ def apply_ops(r, ops, o=None):
             fuelHandlers.FuelHandler(op[3]).swapAssemblies(objs[op[1]], objs[op[2]])
         elif kind == "partialNoDefault":
             objs[op[1]].p[op[2]] = op[3]
+        elif kind == "setDimension":
+            objs[op[1]].setDimension(op[2], op[3], cold=True)
+            objs[op[1]].clearCache()
+        elif kind == "changePitch":
+            g = r.core.spatialGrid
+            if type(g).__name__ == "HexGrid":
+                g.changePitch(g.pitch * op[1])
+            else:
+                px, py = g.pitch
+                g.changePitch(px * op[1], py * op[1])
+        elif kind == "setMaterial":
+            objs[op[1]].setProperties(op[2])
+            objs[op[1]].clearCache()
+        elif kind == "setInputTemperature":
+            objs[op[1]].inputTemperatureInC = op[2]
+            objs[op[1]].clearLinkedCache()
+            objs[op[1]].clearCache()
+        elif kind == "removeAssembly":
+            r.core.removeAssembly(objs[op[1]], discharge=False)
 
 
 # --------------------------------------------------------------------------- DB round trip
@@ -776,9 +842,26 @@ KNOWN_KEYS = {
 }
 
 
-def judge(ctx, fixture, ops, diffs, stage, excluded=None):
-    """turn dump differences into failures with specific keys"""
+_KNOWN_CACHE = {}
+
+
+def _known_finding_keys():
+    if "k" not in _KNOWN_CACHE:
+        try:
+            _KNOWN_CACHE["k"] = {f["key"] for f in common.load_findings()["finding"] if f["property"] == "C04"}
+        except Exception:  # noqa: BLE001
+            _KNOWN_CACHE["k"] = set()
+    return _KNOWN_CACHE["k"]
+
+
+def judge(ctx, fixture, ops, diffs, stage, excluded=None, extra=None):
+    """turn dump differences into failures with specific keys. The run keeps at most 200 failures (common.Ctx.fail):
+    a LISTED known finding is reported the first three times it is seen and counted in the histogram afterwards, so
+    that the known ones (six of them occur on every shipped input) never crowd out a new failure of a later stream"""
     seen = set()
+    if not hasattr(ctx, "_c04_known_seen"):
+        ctx._c04_known_seen = {}
+    per_run = ctx._c04_known_seen
     for key, clause, detail in diffs:
         k = KNOWN_KEYS.get(key, key)
         if excluded and key in excluded:
@@ -788,7 +871,12 @@ def judge(ctx, fixture, ops, diffs, stage, excluded=None):
         if (k, detail.get("param"), detail.get("dim")) in seen:
             continue
         seen.add((k, detail.get("param"), detail.get("dim")))
-        ctx.fail(k, clause, {"fixture": fixture, "ops": ops, "stage": stage, "detail": detail},
+        if k in _known_finding_keys():
+            per_run[k] = per_run.get(k, 0) + 1
+            if per_run[k] > 3:
+                ctx.count(f"known finding seen again (not re-reported): {k}")
+                continue
+        ctx.fail(k, clause, {"fixture": fixture, "ops": ops, "stage": stage, "detail": detail, **(extra or {})},
                  observed=detail.get("after"), expected=detail.get("before"))
 
 
@@ -819,9 +907,13 @@ def _load_and_dump(ctx, fixture, o, r, fn, ops, stage):
         raise LoadFailed(stage) from e
 
 
-def roundtrip_checks(ctx, fixture, o, r, ops, tag, excluded=None, deep=True):
-    """write -> load -> compare; load twice; save the loaded reactor and load again"""
+def roundtrip_checks(ctx, fixture, o, r, ops, tag, excluded=None, deep=True, from_file=False, case_extra=None):
+    """write -> load -> compare; load twice; save the loaded reactor and load again; with from_file also a load that
+    takes settings and blueprints from the file itself"""
     fn = f"{fixture}-{tag}.h5"
+    if from_file:
+        # settings read back from a file take the case title from the FILE NAME (Database.loadCS): name it as a run would
+        fn = f"{o.cs.caseTitle}.h5"
     try:
         d0 = dump(r)
     except Exception as e:  # noqa: BLE001 - the EDITED original cannot even be queried: not a valid state to save
@@ -833,7 +925,18 @@ def roundtrip_checks(ctx, fixture, o, r, ops, tag, excluded=None, deep=True):
     write_db(o, r, fn)
     r2, d1 = _load_and_dump(ctx, fixture, o, r, fn, ops, "write-load " + tag)
     diffs = compare(d0, d1, "saved vs loaded")
-    judge(ctx, fixture, ops, diffs, "write-load " + tag, excluded)
+    judge(ctx, fixture, ops, diffs, "write-load " + tag, excluded, extra=case_extra)
+    if from_file:
+        try:
+            rf = load_db_from_file(fn, r.p.cycle, r.p.timeNode)
+            df = dump(rf)
+        except Exception as e:  # noqa: BLE001
+            ctx.fail("load-raises", "a written reactor state loads back",
+                     {"fixture": fixture, "ops": ops, "stage": "write-load (inputs from the file) " + tag, **(case_extra or {})},
+                     observed=f"{type(e).__name__}: {e}"[:300], expected="a reactor equal to the saved one")
+            raise LoadFailed(tag) from e
+        judge(ctx, fixture, ops, compare(d0, df, "saved vs loaded with the settings and blueprints stored in the file"),
+              "write-load (inputs from the file) " + tag, excluded, extra=case_extra)
     ctx.count(f"{fixture}: objects compared", len(d0))
     ctx.evaluations += len(d0)
     ctx.count(f"{fixture}: parameter values compared", sum(len(v["params"]) for v in d0.values()))
@@ -841,12 +944,12 @@ def roundtrip_checks(ctx, fixture, o, r, ops, tag, excluded=None, deep=True):
     if deep:
         r3, d2 = _load_and_dump(ctx, fixture, o, r, fn, ops, "load-twice " + tag)
         diffs2 = compare(d1, d2, "loaded twice")
-        judge(ctx, fixture, ops, [("twice-" + k, c, d) for k, c, d in diffs2], "load-twice " + tag)
-        fn2 = f"{fixture}-{tag}-resave.h5"
+        judge(ctx, fixture, ops, [("twice-" + k, c, d) for k, c, d in diffs2], "load-twice " + tag, extra=case_extra)
+        fn2 = f"{fixture}-{tag}-resave.h5"      # (a plain name: fn may sit in a sub-directory)
         write_db(o, r2, fn2)
         r4, d3 = _load_and_dump(ctx, fixture, o, r2, fn2, ops, "save-of-load " + tag)
         diffs3 = compare(d1, d3, "saved-loaded-saved-loaded")
-        judge(ctx, fixture, ops, [("resave-" + k, c, d) for k, c, d in diffs3], "save-of-load " + tag)
+        judge(ctx, fixture, ops, [("resave-" + k, c, d) for k, c, d in diffs3], "save-of-load " + tag, extra=case_extra)
         nd += len(diffs2) + len(diffs3)
         os.remove(fn2)
     return fn, r2, nd
@@ -912,6 +1015,9 @@ def layout_line(L, w):
         "T"])
 
 
+_COMP_SORT_SEEN = set()
+
+
 def sort_requests(ctx, fixture, root, req, impl, cases):
     """child order: the model's stable sort by (k, j, i) of the complete indices vs Python's sorted(children)
     (ArmiObject.__lt__) for every composite whose children are not Components and all carry index/coordinate locators"""
@@ -938,9 +1044,40 @@ def sort_requests(ctx, fixture, root, req, impl, cases):
         if order != kids:
             ctx.count("child lists found out of sorted order (F12 situation)")
     ctx.count("child lists compared with the model's sort", n)
+    # Component.__lt__: (cold bounding-circle outer diameter, then inner diameter); the two getters are parameters
+    m = 0
+    for c in [root] + root.getChildren(deep=True):
+        kids = list(c)
+        if len(kids) < 2 or not all(isinstance(k, Component) for k in kids):
+            continue
+        try:
+            keys = [(float(k.getBoundingCircleOuterDiameter(cold=True)), float(k.getCircleInnerDiameter(cold=True))) for k in kids]
+            order = sorted(kids)
+        except Exception:  # noqa: BLE001 - a shape without bounding circle: the real layout refuses such a block too
+            continue
+        if any(v != v or v in (float("inf"), float("-inf")) for kk in keys for v in kk):
+            continue
+        sig = tuple(keys)
+        if sig in _COMP_SORT_SEEN:
+            continue
+        _COMP_SORT_SEEN.add(sig)
+        pos = {id(k): i for i, k in enumerate(kids)}
+        req.append("sortcomp [" + ",".join(f"[{common.rat(a)},{common.rat(b)}]" for a, b in keys) + "]")
+        impl.append("[" + ",".join(str(pos[id(k)]) for k in order) + "]")
+        cases.append({"fixture": fixture, "op": "sortcomp", "keys": keys[:30]})
+        m += 1
+        if order != kids:
+            ctx.count("component lists found out of sorted order")
+    ctx.count("component lists compared with the model's Component.__lt__ sort", m)
 
 
 def layout_correspondence(ctx, fixture, r, fn, r2, req, impl, cases):
+    if not ctx.thorough and fixture == "reference" and len(req) > 0:
+        # quick tier: the 2 700-object input costs ~8 s of request parsing in the interpreted driver; its layout goes to the
+        # model in the thorough tier, the axial-expansion input (1 600 objects, same classes) in both. The whole-stack
+        # oracle has compared the state already.
+        ctx.count("layout correspondence skipped in the quick tier (reference input)")
+        return
     sort_requests(ctx, fixture, r, req, impl, cases)
     """model flatten vs real Layout(comp=r); model compose/unpack vs the file's layout datasets and the loaded tree"""
     import h5py
@@ -1244,7 +1381,7 @@ def excluded_points(ctx, req, impl, cases):
                 ops.append(["setTD", i, td, type(c.material).__name__])
         record_edit_states(ctx, "axialExpansion", r, ops)
         refresh_derived(r)
-        roundtrip_checks(ctx, "axialExpansion", o, r, ops, "td-special", deep=True)
+        roundtrip_checks(ctx, "axialExpansion", o, r, ops, "td-special", deep=ctx.thorough)
         ctx.count("excluded point: theoretical-density fractions 1.0 / own default on a non-unit-default material", len(ops))
     # a parameter with a numeric default explicitly assigned None: on one object among numeric siblings (must read back
     # None), then on EVERY object of the class (the all-None column is not written: what comes back is recorded)
@@ -1302,11 +1439,637 @@ def full_core_round(ctx, rng, req, impl, cases):
             pass
 
 
+# --------------------------------------------------------------------------- C04-a: blueprint-assigned parameters
+BP_SKIP_FILES = ("test_", "__init__")
+
+
+def bp_fixture(name, rng, dest):
+    """a shipped input COPIED into `dest` whose assembly designs SET the 'assign in blueprints' parameters
+    (nozzleType, hotChannelFactors, crCurrentElevation, crInsertedElevation, crWithdrawnElevation, + whatever else
+    the application puts in that category); each design gets its own values, some keys are left out per design.
+    -> (o, r, pdefs)"""
+    import re
+    import shutil
+
+    from armi.reactor import parameters
+    from armi.reactor.assemblies import Assembly
+    from armi.reactor.tests import test_reactors
+    from armi.tests import TEST_ROOT
+
+    sub, inp = FIXTURES[name]
+    path = os.path.join(TEST_ROOT, sub) if sub else TEST_ROOT
+    os.makedirs(dest, exist_ok=True)
+    pdefs = [p for p in parameters.forType(Assembly).inCategory(parameters.Category.assignInBlueprints) if p.saveToDB]
+    keys = [p.name for p in pdefs]
+    k = 0
+    for f in sorted(os.listdir(path)):
+        src = os.path.join(path, f)
+        if not os.path.isfile(src) or f.startswith(BP_SKIP_FILES) or os.path.getsize(src) > 2_000_000:
+            continue
+        if not f.endswith(".yaml"):
+            shutil.copy(src, os.path.join(dest, f))
+            continue
+        out = []
+        with open(src) as fh:
+            lines = fh.read().split("\n")
+        for ln in lines:
+            if re.match(r"^\s+(%s)\s*:" % "|".join(keys), ln):
+                continue        # the shipped value (reference input: nozzleType on four designs) is replaced by ours
+            out.append(ln)
+            m = re.match(r"^(\s+)specifier:\s*(\S+)", ln)
+            if m:
+                k += 1
+                for p in pdefs:
+                    if rng.random() < 0.25:
+                        continue
+                    if isinstance(p.default, str):
+                        v = f"bp{p.name[:3]}{k}"
+                    elif isinstance(p.default, (int, float)) and not isinstance(p.default, bool):
+                        v = 10.0 * k + common.dyadic(rng, 1, 9, 3)
+                    else:
+                        continue
+                    out.append(f"{m.group(1)}{p.name}: {v}")
+        with open(os.path.join(dest, f), "w") as fh:
+            fh.write("\n".join(out))
+    o, r = test_reactors.loadTestReactor(dest, inputFileName=inp, customSettings={"reloadDBName": "reloadingDB.h5"})
+    if name not in NEG_BASELINE:
+        NEG_BASELINE[name] = count_negative(r)
+    return o, r, pdefs
+
+
+def fresh_value(rng, cur, avoid):
+    """a value of the kind of `cur`, different from every value in `avoid`; None when the kind is not handled"""
+    for _ in range(50):
+        if isinstance(cur, (bool, np.bool_)):
+            return not bool(cur)
+        if isinstance(cur, (str, np.str_)):
+            v = rng.choice(["moved", "Reworked", "lta", "X", "TWRPclad", "inner zone"]) + str(rng.randrange(1000))
+        elif isinstance(cur, (float, np.floating)):
+            v = rng.choice(FLOATS) if rng.random() < 0.3 else common.dyadic(rng, -1000, 1000, 8)
+        elif isinstance(cur, (int, np.integer)):
+            v = int(cur) + rng.choice([1, 2, 3, 5])      # small steps: some int parameters index tables (envGroupNum -> chr())
+        else:
+            return None
+        if not any(type(a) is type(v) and a == v for a in avoid) and not any(
+                isinstance(a, (int, float)) and not isinstance(a, bool) and isinstance(v, (int, float)) and a == v for a in avoid):
+            return v
+    return None
+
+
+def load_db_from_file(fn, cycle, node, label=None):
+    """Database.load with settings AND blueprints read back from the file itself"""
+    from armi.bookkeeping.db import Database
+
+    with Database(fn, "r") as db:
+        return db.load(int(cycle), int(node), statePointName=label, allowMissing=True)
+
+
+def blueprint_param_stream(ctx, rng):
+    """C04-a: the blueprints assign parameters to the assembly designs; the saved state holds OTHER values on a random
+    subset of assemblies (a moved control rod, a re-assigned nozzle type): the loaded reactor must hold the saved ones.
+    Loaded with the given settings/blueprints and with the ones stored in the file."""
+    from armi.reactor.assemblies import Assembly
+
+    fixtures = ctx.pick(["smallest", "c5g7", "reference"], ["smallest", "godiva", "c5g7", "axialExpansion", "reference"])
+    for rep, fx in enumerate(fixtures * ctx.pick(1, 3)):
+        dest = os.path.join(os.getcwd(), f"bp-{fx}-{rep}")
+        bpseed = rng.randrange(2 ** 31)
+        with silence():
+            try:
+                o, r, pdefs = bp_fixture(fx, random.Random(bpseed), dest)
+            except Exception as e:  # noqa: BLE001 - the edited input does not build: nothing to check
+                ctx.count(f"blueprint stream: edited input {fx} does not build ({type(e).__name__})")
+                continue
+        objs = all_objects(r)
+        assems = [(i, a) for i, a in enumerate(objs) if isinstance(a, Assembly)]
+        nset = 0
+        for i, a in assems:
+            design = r.blueprints.assemDesigns.get(a.p.type) if hasattr(r.blueprints.assemDesigns, "get") else None
+            if design is None:
+                with contextlib.suppress(Exception):
+                    design = r.blueprints.assemDesigns[a.p.type]
+            for p in pdefs:
+                bv = getattr(design, p.name, None) if design is not None else None
+                if bv is not None:
+                    nset += 1
+                    if a.p[p.name] != bv:
+                        ctx.count("blueprint stream: constructed assembly does not hold its design's value")
+        ctx.count("blueprint stream: (assembly, parameter) pairs assigned by the blueprints", nset)
+        if nset == 0:
+            continue
+        ops = []
+        chosen = [x for x in assems if rng.random() < 0.5] or [rng.choice(assems)]
+        for i, a in chosen:
+            design = None
+            with contextlib.suppress(Exception):
+                design = r.blueprints.assemDesigns[a.p.type]
+            for p in pdefs:
+                if rng.random() < 0.2:
+                    continue
+                cur = a.p[p.name]
+                bv = getattr(design, p.name, None) if design is not None else None
+                val = fresh_value(rng, cur, [cur, p.default, bv])
+                if val is None:
+                    continue
+                try:
+                    a.p[p.name] = val
+                except Exception:  # noqa: BLE001
+                    continue
+                ops.append(["setparam", i, p.name, val])
+                ctx.case((fx, "blueprint-assigned", p.name, bv is not None), nontrivial=True)
+                ctx.count("edit kind: blueprint-assigned parameter changed after construction"
+                          + (" (design sets it)" if bv is not None else " (design silent)"))
+        if fx == "reference" and not ctx.thorough:
+            # quick tier: this is also the seeded edit round of the reference input (pin lattices, spent fuel pool)
+            with silence():
+                try:
+                    n0 = len(ops)
+                    mutate(rng, o, r, 200, ops)
+                    record_edit_states(ctx, fx, r, ops[n0:])
+                    ctx.count("edits applied: reference", len(ops) - n0)
+                except Exception as e:  # noqa: BLE001 - the edits left an inconsistent model: keep the blueprint edits only
+                    ctx.count(f"reference: edited state invalid before saving ({type(e).__name__})")
+                    o, r, pdefs = bp_fixture(fx, random.Random(bpseed), dest + "-again")
+                    apply_ops(r, ops[:n0], o)
+                    ops = ops[:n0]
+        with silence():
+            try:
+                refresh_derived(r)
+                fn, r2, nd = roundtrip_checks(ctx, fx, o, r, ops, f"bp{rep}", deep=(fx != "reference" or ctx.thorough),
+                                              from_file=(fx != "reference" or ctx.thorough), case_extra={"bpSeed": bpseed})
+                os.remove(fn)
+                ctx.count(f"{fx}: round trips (blueprints assign parameters)")
+            except WriteRejected as e:
+                ctx.count(f"{fx}: blueprint stream state refused at write time ({e})")
+            except LoadFailed:
+                pass
+
+
+def all_parameter_sweep(ctx, rng, fixture):
+    """EVERY persistent free parameter of every class is changed after construction, each on its own random subset of
+    the objects of the class, to a value of its kind different from default and current value (numbers, strings, bools);
+    then the round trip. (arrays / None-default parameters: `mutate`)"""
+    from armi.reactor import parameters
+
+    with silence():
+        o, r = load_fixture(fixture)
+    objs = all_objects(r)
+    byclass = {}
+    for i, c in enumerate(objs):
+        byclass.setdefault(type(c), []).append((i, c))
+    ops = []
+    nparams = 0
+    for klass, members in byclass.items():
+        c0 = members[0][1]
+        for p in [q for q in c0.p.paramDefs if q.saveToDB]:
+            if not is_free(c0, p.name) or p.default is parameters.NoDefault or p.name in NONE_UNSAFE or p.name in SWEEP_SKIP:
+                continue
+            subset = [m for m in members[:300] if rng.random() < 0.5] or [rng.choice(members)]
+            done = False
+            for i, c in subset:
+                cur = c.p.get(p.name, p.default)
+                if cur is parameters.NoDefault or cur is None:
+                    continue
+                val = fresh_value(rng, cur, [cur, p.default])
+                if val is None:
+                    continue
+                try:
+                    with silence():
+                        c.p[p.name] = val
+                except Exception:  # noqa: BLE001 - refused by the setter: not a reachable state
+                    with contextlib.suppress(Exception):
+                        c.p[p.name] = cur
+                    continue
+                ops.append(["setparam", i, p.name, val])
+                done = True
+            if done:
+                nparams += 1
+                ctx.case((fixture, "sweep", klass.__name__, p.name), nontrivial=True)
+    ctx.count(f"parameter sweep {fixture}: distinct (class, parameter) changed after construction", nparams)
+    ctx.count("edit kind: sweep assignment", len(ops))
+    with silence():
+        try:
+            refresh_derived(r)
+            fn, r2, nd = roundtrip_checks(ctx, fixture, o, r, ops, "sweep", deep=False)
+            os.remove(fn)
+            ctx.count(f"{fixture}: round trips (every-parameter sweep)")
+        except WriteRejected as e:
+            ctx.count(f"{fixture}: sweep state refused at write time ({e})")
+        except LoadFailed:
+            pass
+        except Exception as e:  # noqa: BLE001 - the assignments left a model the public API cannot evaluate
+            ctx.count(f"{fixture}: sweep state invalid before saving ({type(e).__name__})")
+
+
+# --------------------------------------------------------------------------- C04-b: several statepoints in ONE file
+SWAP_MATERIALS = ["HT9", "Zr", "Inconel600", "InconelX750", "Alloy200", "HastelloyN"]
+
+
+def layout_borne_edit(rng, o, r, ops, allow_tree_change=False):
+    """edits that keep the tree of objects and the sorted child order but change what the LAYOUT group carries:
+    pin multi-index locations (rotation), grid parameters (pitch, block heights), material class names, input / hot
+    temperatures, free coordinates. With allow_tree_change also the removal of an assembly. -> kinds applied"""
+    from armi.reactor import grids
+    from armi.reactor.assemblies import Assembly
+    from armi.reactor.components import Component
+
+    objs = all_objects(r)
+    assems = [(i, a) for i, a in enumerate(objs) if isinstance(a, Assembly) and a.parent is r.core]
+    comps = [(i, c) for i, c in enumerate(objs) if isinstance(c, Component)]
+    gname = type(r.core.spatialGrid).__name__
+    kinds = ["material", "tinput", "thot", "freecoord", "height"]
+    if gname == "HexGrid":
+        kinds += ["rotate", "rotate", "pitch"]
+    elif gname == "CartesianGrid":
+        kinds += ["pitch"]
+    chosen = rng.sample(kinds, rng.randint(1, 3))
+    if allow_tree_change and len(assems) > 2:
+        chosen.append("removeAssembly")
+    applied = []
+    for kind in chosen:
+        try:
+            if kind == "rotate":
+                i, a = rng.choice(assems)
+                k = rng.choice([1, 2, 3, 4, 5])
+                a.rotate(math.radians(60 * k))
+                ops.append(["rotate", i, k])
+            elif kind == "pitch":
+                g = r.core.spatialGrid
+                f = rng.choice([1.0078125, 0.984375, 1.25, 1.5])
+                if gname == "HexGrid":
+                    g.changePitch(g.pitch * f)
+                else:
+                    px, py = g.pitch
+                    g.changePitch(px * f, py * f)
+                ops.append(["changePitch", f])
+            elif kind == "material":
+                cands = [(i, c) for i, c in rng.sample(comps, min(40, len(comps))) if c.containsSolidMaterial()
+                         and not c.getNumberDensities().keys() - {"FE56"} == set() and not any(
+                             isinstance(c.p[d], tuple) for d in c.DIMENSION_NAMES)]
+                if not cands:
+                    continue
+                i, c = rng.choice(cands)
+                names = [m for m in SWAP_MATERIALS if m != type(c.material).__name__]
+                m = rng.choice(names)
+                c.setProperties(m)
+                c.clearCache()
+                ops.append(["setMaterial", i, m])
+            elif kind == "tinput":
+                i, c = rng.choice(comps)
+                t = c.inputTemperatureInC + common.dyadic(rng, 1, 40, 2)
+                c.inputTemperatureInC = t
+                c.clearLinkedCache()
+                c.clearCache()
+                ops.append(["setInputTemperature", i, t])
+            elif kind == "thot":
+                i, c = rng.choice(comps)
+                t = c.temperatureInC + common.dyadic(rng, 1, 60, 2)
+                c.setTemperature(t)
+                ops.append(["setTemperature", i, t])
+            elif kind == "freecoord":
+                cands = [(i, c) for i, c in enumerate(objs) if c.parent is r and c is not r.core
+                         and isinstance(c.spatialLocator, grids.CoordinateLocation)]
+                if not cands:
+                    continue
+                i, c = rng.choice(cands)
+                xyz = [v + common.dyadic(rng, -50, 50, 3) for v in (5012.5, 4987.25, 6000.75)]
+                c.spatialLocator = grids.CoordinateLocation(xyz[0], xyz[1], xyz[2], None)
+                ops.append(["setCoordinateLocation", i, xyz])
+            elif kind == "height":
+                i, a = rng.choice(assems)
+                bl = [b for b in a]
+                k = rng.randrange(len(bl))
+                h = bl[k].getHeight() * rng.choice([0.5, 1.25, 1.5])
+                bl[k].setHeight(h)
+                a.calculateZCoords()
+                ops.append(["setHeight", i, k, h])
+            elif kind == "removeAssembly":
+                i, a = rng.choice(assems)
+                r.core.removeAssembly(a, discharge=False)
+                ops.append(["removeAssembly", i])
+            applied.append(kind)
+        except Exception:  # noqa: BLE001 - the API refuses the edit
+            continue
+    return applied
+
+
+def multi_statepoint_stream(ctx, rng):
+    """C04-b: statepoints A, B, C, ... of ONE reactor object written into ONE file, with layout-borne edits (and, in
+    some sequences, tree changes) in between; then every statepoint is loaded (latest first and in random order) and must
+    be observationally equal to the state AT THE TIME IT WAS WRITTEN; a loaded reactor is saved as a further
+    statepoint of the same file and loaded; all earlier statepoints are loaded once more afterwards (writing never
+    changes what another statepoint loads to); writing to an occupied address is refused and changes nothing."""
+    from armi.bookkeeping.db import Database
+
+    plan_ = ctx.pick([("smallest", 4, False), ("smallest", 3, True), ("c5g7", 3, True), ("godiva", 3, False)],
+                     [("smallest", 6, False)] * 4 + [("smallest", 4, True)] * 2 + [("c5g7", 4, True)] * 2 + [("godiva", 4, False)] * 2
+                     + [("axialExpansion", 3, True), ("axialExpansion", 2, False), ("reference", 3, False), ("reference", 3, True)])
+    for seq, (fx, nsp, tree_changes) in enumerate(plan_):
+        with silence():
+            o, r = load_fixture(fx)
+        fn = f"{o.cs.caseTitle}.h5"      # named as a run names it: settings read back from the file take their title from it
+        with silence():
+            if rng.random() < 0.5:
+                pre = []
+                try:
+                    mutate(rng, o, r, 10, pre)
+                except Exception:  # noqa: BLE001
+                    o, r = load_fixture(fx)
+                    pre = []
+            else:
+                pre = []
+        ops, states = list(pre), []
+        tree_step = rng.randrange(1, nsp)
+        cycle, node = 0, 0
+        db = Database(fn, "w")
+        ok = True
+        with silence():
+            db.open()
+            db.writeInputsToDB(o.cs)
+            for step in range(nsp):
+                label = None
+                if step > 0:
+                    kinds = layout_borne_edit(rng, o, r, ops, allow_tree_change=tree_changes and (step == tree_step or rng.random() < 0.25))
+                    for kd in kinds:
+                        ctx.count(f"multi-statepoint edit between writes: {kd}")
+                    x = rng.random()
+                    if x < 0.5:
+                        node += rng.choice([1, 1, 2])
+                    elif x < 0.8:
+                        cycle, node = cycle + 1, 0
+                    else:
+                        label = rng.choice(["EOL", "BOC", "-special"])
+                try:
+                    r.p.cycle, r.p.timeNode = cycle, node
+                    refresh_derived(r)
+                    d = dump(r)
+                    nneg = sum(1 for v in d.values() if isinstance(v.get("volume"), float) and v["volume"] < 0)
+                    if nneg > NEG_BASELINE.get(fx, 0):
+                        raise WriteRejected("negative component volume")
+                    db.writeToDB(r, statePointName=label)
+                except Exception as e:  # noqa: BLE001 - invalid edited state or write-time refusal: end the sequence here
+                    ctx.count(f"{fx}: multi-statepoint sequence cut short ({type(e).__name__})")
+                    if os.environ.get("C04_DEBUG"):
+                        import traceback
+                        traceback.print_exc(limit=-4, file=sys.__stdout__)
+                    ok = False
+                    break
+                states.append(((cycle, node, label), d, list(ops)))
+            # an occupied address: the second write must be refused (and, below, must not have changed the statepoint)
+            if ok and states:
+                try:
+                    db.writeToDB(r, statePointName=states[-1][0][2])
+                    ctx.fail("statepoint-overwritten-silently", "a write to an occupied (cycle, node, label) address is refused",
+                             {"fixture": fx, "ops": ops, "address": list(states[-1][0])}, observed="accepted", expected="ValueError")
+                except Exception:  # noqa: BLE001
+                    ctx.count("multi-statepoint: write to an occupied address refused")
+            db.close(True)
+        if len(states) < 2:
+            with contextlib.suppress(OSError):
+                os.remove(fn)
+            continue
+        ctx.count(f"multi-statepoint files: {fx}")
+        ctx.count("multi-statepoint: statepoints written", len(states))
+
+        def multi_extra(k):
+            return {"multi": {"addresses": [list(st[0]) for st in states], "opsAt": [len(st[2]) for st in states], "statepoint": k}}
+
+        try:
+            from armi.utils import getNodesPerCycle
+            nodes_per_cycle = list(getNodesPerCycle(o.cs))
+        except Exception:  # noqa: BLE001
+            nodes_per_cycle = []
+
+        def check_all(stage, order):
+            for k in order:
+                (cy, nd_, lab), d, sops = states[k]
+                with silence():
+                    try:
+                        how = rng.choice(["given inputs", "given inputs", "negative node", "read-only"])
+                        nodes = nodes_per_cycle[cy] if cy < len(nodes_per_cycle) else 0
+                        with Database(fn, "r") as dbr:
+                            if how == "negative node" and lab is None and nd_ < nodes:
+                                # `node < 0`: counted from the end of the cycle, like a list index
+                                rk = dbr.load(cy, nd_ - nodes, cs=o.cs, bp=r.blueprints, allowMissing=True)
+                            elif how == "read-only":
+                                rk = dbr.loadReadOnly(cy, nd_, statePointName=lab)
+                            else:
+                                how = "given inputs"
+                                rk = dbr.load(cy, nd_, cs=o.cs, bp=r.blueprints, statePointName=lab, allowMissing=True)
+                        ctx.count(f"multi-statepoint: statepoint loaded ({how})")
+                        dk = dump(rk)
+                    except Exception as e:  # noqa: BLE001
+                        ctx.fail("load-raises", "a written reactor state loads back",
+                                 {"fixture": fx, "ops": sops, "stage": stage, "statepoint": [cy, nd_, lab], "of": len(states)},
+                                 observed=f"{type(e).__name__}: {e}"[:300], expected="a reactor equal to the saved one")
+                        continue
+                diffs = compare(d, dk, f"statepoint {k + 1} of {len(states)} in one file: saved vs loaded")
+                judge(ctx, fx, sops, diffs, f"{stage}: statepoint {k + 1}/{len(states)} c{cy}n{nd_}{lab or ''}", extra=multi_extra(k))
+                ctx.evaluations += len(d)
+                ctx.case((fx, "multi", seq, k, stage), nontrivial=True)
+            return
+
+        order = list(range(len(states)))[::-1]            # latest first: B, then A
+        check_all("multi-statepoint", order)
+        if ctx.thorough or fx == "smallest":
+            rng.shuffle(order)
+            check_all("multi-statepoint again", order)
+        # save a LOADED reactor into the file that already holds the other statepoints
+        with silence():
+            try:
+                j = rng.randrange(len(states))
+                (cy, nd_, lab), dj, sops = states[j]
+                dba = Database(fn, "a")
+                dba.open()
+                rj = dba.load(cy, nd_, cs=o.cs, bp=r.blueprints, statePointName=lab, allowMissing=True)
+                rj.p.cycle, rj.p.timeNode = cycle + 1, 0
+                dsave = dump(rj)
+                dba.writeToDB(rj)
+                dba.close(True)
+                with Database(fn, "r") as dbr:
+                    rl = dbr.load(cycle + 1, 0, cs=o.cs, bp=r.blueprints, allowMissing=True)
+                dl = dump(rl)
+                diffs = compare(dsave, dl, "loaded reactor saved as a further statepoint of the same file: saved vs loaded")
+                judge(ctx, fx, sops, [("resave-" + k_, c_, d_) for k_, c_, d_ in diffs],
+                      f"save-of-load into the same file (from statepoint {j + 1})", extra=multi_extra(j))
+                ctx.count("multi-statepoint: loaded reactor saved into the same file")
+            except Exception as e:  # noqa: BLE001
+                ctx.fail("resave-into-same-file-raises", "saving a loaded reactor gives a file that loads to the same state again",
+                         {"fixture": fx, "ops": ops, "stage": "save-of-load into the same file"}, observed=f"{type(e).__name__}: {e}"[:300])
+        later = list(range(len(states)))
+        if not ctx.thorough and len(later) > 2:
+            later = sorted(rng.sample(later, 2))
+        check_all("multi-statepoint after a further write", later)
+        with contextlib.suppress(OSError):
+            os.remove(fn)
+
+
+# --------------------------------------------------------------------------- tie (i) for the file / load-order model
+def file_model_correspondence(ctx, rng, req, impl, cases):
+    """Model/Layout.lean `groupName`, `File.write/get` and `assignBlueprints ∘ initGroups` against the real
+    getH5GroupName, the real Database (writeToDB / load on ONE open file, incl. writes to occupied addresses and loads of
+    absent ones) and the real Layout._initComps + Database._readParams + Database._assignBlueprintsParams"""
+    from armi.bookkeeping.db import Database
+    from armi.bookkeeping.db import database as dbmod
+    from armi.bookkeeping.db import layout as lay
+    from armi.reactor import parameters
+    from armi.reactor.assemblies import Assembly
+    from armi.reactor.blocks import Block
+
+    labels = ["", "EOL", "BOC", "-special", "x1", "_a"]
+    for _ in range(ctx.pick(60, 600)):
+        c = rng.choice([0, 1, 2, 9, 10, 11, 99, 100, 101, rng.randrange(0, 1200)])
+        n = rng.choice([0, 1, 9, 10, 99, 100, rng.randrange(0, 400)])
+        lab = rng.choice(labels)
+        req.append(f"groupname {c} {n} L{lab}")
+        impl.append(dbmod.getH5GroupName(c, n, lab or None))
+        cases.append({"fixture": "-", "op": "groupname", "args": [c, n, lab]})
+    # _unpackLocations on generated label / data lists: well-formed, and malformed (data exhausted, unknown label,
+    # multi-index label without a number): the model must refuse exactly where the real function raises
+    for _ in range(ctx.pick(150, 2000)):
+        labs, data = [], []
+        for _k in range(rng.randint(0, 7)):
+            kind = rng.choice(["N", "C", "I", "I", "M"])
+            if kind == "M":
+                nsub = rng.randint(0, 4)
+                labs.append(f"M:{nsub}")
+                data += [(rng.randint(-9, 9), rng.randint(-9, 9), rng.randint(0, 3)) for _q in range(nsub)]
+            else:
+                labs.append(kind)
+                data.append((0, 0, 0) if kind == "N" else (rng.randint(-9, 9), rng.randint(-9, 9), rng.randint(0, 3)))
+        form = rng.choice(["ok", "ok", "short", "badlabel", "badcount", "extra"])
+        if form == "short" and data:
+            data = data[: rng.randrange(len(data))]
+        elif form == "badlabel" and labs:
+            labs[rng.randrange(len(labs))] = rng.choice(["X", "None", "IndexLocation", "m:2", "c"])
+        elif form == "badcount" and labs:
+            labs[rng.randrange(len(labs))] = rng.choice(["M:", "M:x", "M:2x", "M:-1"])
+        elif form == "extra":
+            data = data + [(1, 1, 1)]
+        fdata = [tuple(float(v) for v in t) for t in data]
+        try:
+            un = lay._unpackLocations(list(labs), list(fdata), lay.DB_MINOR)
+            outs = []
+            for lab, loc in zip(labs, un):
+                if loc is None:
+                    outs.append("n")
+                elif isinstance(loc, list):
+                    outs.append("[m,[" + ",".join("[" + ",".join(str(int(v)) for v in sl) + "]" for sl in loc) + "]]")
+                else:
+                    outs.append(f"[{'c' if lab == 'C' else 'i'}," + ",".join(str(int(v)) for v in loc) + "]")
+            real = "[" + ",".join(outs) + "]"
+        except (StopIteration, ValueError, IndexError):
+            real = "reject"
+        ctx.count("unpackLocations stream: " + form + (" -> reject" if real == "reject" else " -> ok"))
+        if any(" " in x for x in labs) or not all(labs):
+            continue
+        req.append("unpacklocs [" + ",".join(labs) + "] [" + ",".join("[" + ",".join(str(v) for v in t) + "]" for t in data) + "]")
+        impl.append(real)
+        cases.append({"fixture": "-", "op": "unpacklocs", "labels": labs, "data": data})
+        ctx.case(("unpacklocs", tuple(labs), tuple(data)), nontrivial=bool(labs))
+    # write/load histories on one real file
+    with silence():
+        o, r = load_fixture("smallest")
+    for h in range(ctx.pick(6, 40)):
+        fn = f"hist-{h}.h5"
+        pool = [(rng.randrange(3), rng.randrange(3), rng.choice(["", "", "EOL"])) for _ in range(rng.randint(2, 4))]
+        ops, out = [], []
+        with silence():
+            db = Database(fn, "w")
+            db.open()
+            db.writeInputsToDB(o.cs)
+            for k in range(rng.randint(4, 9)):
+                cy, nd_, lab = rng.choice(pool) if rng.random() < 0.85 else (7, 7, "")
+                name = dbmod.getH5GroupName(cy, nd_, lab or None)
+                if rng.random() < 0.55:
+                    ident = 1 + k + 10 * h
+                    r.p.cycle, r.p.timeNode = cy, nd_
+                    r.core.p.keff = float(ident)
+                    ops.append(f"[w,{name},{ident}]")
+                    try:
+                        db.writeToDB(r, statePointName=lab or None)
+                        out.append("ok")
+                    except ValueError:
+                        out.append("rej")
+                    ctx.count("file history: write " + out[-1])
+                else:
+                    ops.append(f"[r,{name}]")
+                    try:
+                        rl = db.load(cy, nd_, cs=o.cs, bp=r.blueprints, statePointName=lab or None, allowMissing=True)
+                        out.append(str(int(rl.core.p.keff)))
+                        if (int(rl.p.cycle), int(rl.p.timeNode)) != (cy, nd_):
+                            ctx.fail("statepoint-address-mismatch", "a statepoint loads with the cycle / node it was written under",
+                                     {"fixture": "smallest", "history": ops[:]}, observed=[int(rl.p.cycle), int(rl.p.timeNode)], expected=[cy, nd_])
+                    except KeyError:
+                        out.append("_")
+                    ctx.count("file history: load " + ("absent" if out[-1] == "_" else "present"))
+            db.close(True)
+        with contextlib.suppress(OSError):
+            os.remove(fn)
+        req.append("filehist [" + ",".join(ops) + "]")
+        impl.append("[" + ",".join(out) + "]")
+        cases.append({"fixture": "smallest", "op": "filehist", "history": ops})
+        ctx.case(("filehist", tuple(ops)), nontrivial=True)
+    # load order: _initComps -> _readParams -> _assignBlueprintsParams on files whose blueprints assign parameters and whose
+    # saved values differ from them
+    for fx in ctx.pick(["smallest", "c5g7"], ["smallest", "c5g7", "godiva", "axialExpansion"]):
+        with silence():
+            try:
+                o, r, pdefs = bp_fixture(fx, random.Random(rng.randrange(2 ** 31)), os.path.join(os.getcwd(), f"bpm-{fx}"))
+                for a in all_objects(r):
+                    if isinstance(a, Assembly):
+                        for p in pdefs:
+                            v = fresh_value(rng, a.p[p.name], [a.p[p.name], p.default])
+                            if v is not None and rng.random() < 0.7:
+                                a.p[p.name] = v
+                fn = f"bpm-{fx}.h5"
+                write_db(o, r, fn)
+            except Exception as e:  # noqa: BLE001
+                ctx.count(f"load-order correspondence: {fx} not built ({type(e).__name__})")
+                continue
+            with Database(fn, "r") as db:
+                h5group = db.h5db[dbmod.getH5GroupName(int(r.p.cycle), int(r.p.timeNode))]
+                L = lay.Layout((db.versionMajor, db.versionMinor), h5group=h5group)
+                comps, grouped = L._initComps(o.cs.caseTitle, r.blueprints)
+                for ctype, clist in grouped.items():
+                    db._readParams(h5group, ctype, clist, allowMissing=True)
+                watch = []
+                for comp, _sn, _nk, _loc in comps:
+                    for base in (Block, Assembly):
+                        if isinstance(comp, base):
+                            names = [q.name for q in base.pDefs.inCategory(parameters.Category.assignInBlueprints)]
+                            watch.append((comp, names, [comp.p.get(nm, None) for nm in names]))
+                nkeys = len(grouped)
+                Database._assignBlueprintsParams(r.blueprints, grouped)
+                changed = sum(1 for comp, names, before in watch if [comp.p.get(nm, None) for nm in names] != before)
+            os.remove(fn)
+        tm = {}
+        for t in L.type:
+            tm.setdefault(str(t), len(tm))
+        req.append("assignbp [" + ",".join(str(tm[str(t)]) for t in L.type) + "] [1000000,1000001]")
+        impl.append(str(changed))
+        cases.append({"fixture": fx, "op": "assignbp"})
+        ctx.count("load-order correspondence: objects watched through _assignBlueprintsParams", len(watch))
+        ctx.case(("assignbp", fx, len(L.type)), nontrivial=True)
+
+
 # --------------------------------------------------------------------------- run
 def plan(ctx):
     if ctx.thorough:
         return [("smallest", 40, 8), ("godiva", 20, 20), ("c5g7", 12, 60), ("axialExpansion", 4, 150), ("reference", 5, 250)]
-    return [("smallest", 6, 8), ("godiva", 3, 20), ("c5g7", 3, 60), ("axialExpansion", 1, 120), ("reference", 1, 200)]
+    # quick tier: the edit round of the reference input runs on its blueprint-assigning copy (blueprint_param_stream)
+    return [("smallest", 6, 8), ("godiva", 3, 20), ("c5g7", 3, 60), ("axialExpansion", 1, 120)]
+
+
+@contextlib.contextmanager
+def timed(ctx, name):
+    import time
+
+    t = time.time()
+    try:
+        yield
+    finally:
+        ctx.count(f"wall seconds (rounded up) in stream: {name}", int(time.time() - t) + 1)
 
 
 def run(ctx):
@@ -1314,61 +2077,73 @@ def run(ctx):
     rng = ctx.rng
     with common.scratch_dir():
         for fixture, rounds, nobj in plan(ctx):
-            with silence():
-                o, r = load_fixture(fixture)
-            ops = []
-            schedule = list(range(rounds + 1))
-            retries = 2
-            while schedule:
-                rd = schedule.pop(0)
-                if rd == 0 and not ctx.thorough and nobj > 100:
-                    continue        # quick tier: the large inputs are checked in their edited state only
-                if rd > 0:
-                    with silence():
-                        try:
-                            n_before = len(ops)
-                            mutate(rng, o, r, nobj, ops)
-                            refresh_derived(r)
-                            record_edit_states(ctx, fixture, r, ops[n_before:])
-                        except Exception as e:  # noqa: BLE001 - the edits themselves left an inconsistent model
-                            ctx.count(f"{fixture}: edited state invalid before saving ({type(e).__name__})")
-                            o, r = load_fixture(fixture)
-                            ops = []
-                            if retries > 0:
-                                retries -= 1
-                                schedule.insert(0, rd)     # draw another edit set for this round
-                            continue
-                with silence():
-                    try:
-                        fn, r2, nd = roundtrip_checks(ctx, fixture, o, r, list(ops), f"r{rd}", deep=(rd == rounds or (rd == 0 and nobj <= 60)))
-                    except WriteRejected as e:
-                        # the edited state cannot be written (write-time exception: allowed); start again from the input
-                        ctx.count(f"{fixture}: state refused at write time ({e})")
-                        if rd == 0:
-                            ctx.fail("shipped-input-not-writable", "the unedited reactor built from a shipped input can be saved",
-                                     {"fixture": fixture, "ops": []}, observed=f"{e.__cause__!r}"[:300])
-                            break
-                        o, r = load_fixture(fixture)
-                        ops = []
-                        if retries > 0 and rd > 0:
-                            retries -= 1
-                            schedule.insert(0, rd)
-                        continue
-                    except LoadFailed:
-                        break
-                    layout_correspondence(ctx, fixture, r, fn, r2, req, impl, cases)
-                os.remove(fn)
-                ctx.case((fixture, rd, len(ops)), nontrivial=True)
-                ctx.count(f"{fixture}: round trips")
-                ctx.count("edits applied: " + fixture, len(ops))
+          with timed(ctx, "edit rounds " + fixture):
+              with silence():
+                  o, r = load_fixture(fixture)
+              ops = []
+              schedule = list(range(rounds + 1))
+              retries = 2
+              while schedule:
+                  rd = schedule.pop(0)
+                  if rd == 0 and not ctx.thorough and nobj > 100:
+                      continue        # quick tier: the large inputs are checked in their edited state only
+                  if rd > 0:
+                      with silence():
+                          try:
+                              n_before = len(ops)
+                              mutate(rng, o, r, nobj, ops)
+                              refresh_derived(r)
+                              record_edit_states(ctx, fixture, r, ops[n_before:])
+                          except Exception as e:  # noqa: BLE001 - the edits themselves left an inconsistent model
+                              ctx.count(f"{fixture}: edited state invalid before saving ({type(e).__name__})")
+                              o, r = load_fixture(fixture)
+                              ops = []
+                              if retries > 0:
+                                  retries -= 1
+                                  schedule.insert(0, rd)     # draw another edit set for this round
+                              continue
+                  with silence():
+                      try:
+                          fn, r2, nd = roundtrip_checks(ctx, fixture, o, r, list(ops), f"r{rd}", deep=(rd == rounds or (rd == 0 and nobj <= 60)))
+                      except WriteRejected as e:
+                          # the edited state cannot be written (write-time exception: allowed); start again from the input
+                          ctx.count(f"{fixture}: state refused at write time ({e})")
+                          if rd == 0:
+                              ctx.fail("shipped-input-not-writable", "the unedited reactor built from a shipped input can be saved",
+                                       {"fixture": fixture, "ops": []}, observed=f"{e.__cause__!r}"[:300])
+                              break
+                          o, r = load_fixture(fixture)
+                          ops = []
+                          if retries > 0 and rd > 0:
+                              retries -= 1
+                              schedule.insert(0, rd)
+                          continue
+                      except LoadFailed:
+                          break
+                      layout_correspondence(ctx, fixture, r, fn, r2, req, impl, cases)
+                  os.remove(fn)
+                  ctx.case((fixture, rd, len(ops)), nontrivial=True)
+                  ctx.count(f"{fixture}: round trips")
+                  ctx.count("edits applied: " + fixture, len(ops))
         if ctx.thorough:
             full_core_round(ctx, rng, req, impl, cases)
-        excluded_points(ctx, req, impl, cases)
-        with silence():
+        with timed(ctx, "blueprint-assigned parameters"):
+            blueprint_param_stream(ctx, rng)
+        with timed(ctx, "every-parameter sweep"):
+            for fx in ctx.pick(["smallest", "godiva", "c5g7"], ["smallest", "godiva", "c5g7", "axialExpansion", "reference"]):
+                all_parameter_sweep(ctx, rng, fx)
+        with timed(ctx, "multi-statepoint files"):
+            multi_statepoint_stream(ctx, rng)
+        with timed(ctx, "file / load-order model correspondence"):
+            file_model_correspondence(ctx, rng, req, impl, cases)
+        with timed(ctx, "excluded points"):
+            excluded_points(ctx, req, impl, cases)
+        with timed(ctx, "synthetic layouts"), silence():
             synthetic_layouts(ctx, req, impl, cases)
     for op in set(c["op"] for c in cases):
         ctx.count("model requests: " + op, sum(1 for c in cases if c["op"] == op))
-    model = lean_run("Layout", req)
+    with timed(ctx, "Lean driver (all requests)"):
+        model = lean_run("Layout", req)
     ctx.compare("Model/Layout.lean vs Layout / layout datasets / _unpackLocations / computeAncestors", cases, model, impl)
     ctx.evaluations += len(req)
     if req:
@@ -1377,8 +2152,15 @@ def run(ctx):
                 "fixture) x rounds of seeded random edits (assignments to free parameters of sampled objects incl. "
                 "per-block arrays of differing 1-d/2-d shape, temperatures, number densities, block heights, fractional "
                 "free coordinates) -> writeToDB -> load -> full canonical dump compared; load twice and save-of-load on "
-                "the first and last round; Layout arrays, file layout datasets, _unpackLocations, computeAncestors vs the "
-                "model for every state. distinct = (fixture, round, #edits) states + layout cases")
+                "the first and last round; copies of the inputs whose blueprints assign nozzleType / hotChannelFactors / "
+                "cr*Elevation per design + other values assigned after construction on random assemblies (loaded with the "
+                "given and with the stored inputs); every persistent free parameter of every class changed on a random "
+                "subset of its objects; sequences of 2-6 statepoints of one reactor in one file with rotations, pitch / "
+                "height / material / Tinput / Thot / free-coordinate edits and assembly removals in between, every "
+                "statepoint loaded (latest first) and compared with the state at its write, a loaded reactor saved into the "
+                "same file, occupied addresses; Layout arrays, file layout datasets, _unpackLocations (incl. malformed), "
+                "computeAncestors, both sort orders, group names, write/load histories, _assignBlueprintsParams vs the model. "
+                "distinct = (fixture, round, #edits) states + (fixture, class, parameter) sweeps + statepoints + layout cases")
 
 
 # --------------------------------------------------------------------------- search / replay
@@ -1413,6 +2195,34 @@ def search(ctx, disagreements, broken):
     return out
 
 
+def replay_multi(sub, fx, o, r, case):
+    """re-run a multi-statepoint history: apply the recorded edits slice by slice, write every statepoint up to the
+    failing one (and the later ones: a later write may be what damages an earlier statepoint) into one file, load"""
+    from armi.bookkeeping.db import Database
+
+    m = case["multi"]
+    ops = case.get("ops", [])
+    k = m["statepoint"]
+    # ops recorded with the failure are those up to statepoint k; later statepoints are re-written without further edits
+    cuts = [min(n, len(ops)) for n in m["opsAt"]]
+    db = Database("replay-multi.h5", "w")
+    db.open()
+    db.writeInputsToDB(o.cs)
+    dumps, done = [], 0
+    for (cy, nd_, lab), cut in zip(m["addresses"], cuts):
+        apply_ops(r, ops[done:cut], o)
+        done = max(done, cut)
+        r.p.cycle, r.p.timeNode = cy, nd_
+        refresh_derived(r)
+        dumps.append(dump(r))
+        db.writeToDB(r, statePointName=lab)
+    db.close(True)
+    cy, nd_, lab = m["addresses"][k]
+    with Database("replay-multi.h5", "r") as dbr:
+        rk = dbr.load(cy, nd_, cs=o.cs, bp=r.blueprints, statePointName=lab, allowMissing=True)
+    judge(sub, fx, ops, compare(dumps[k], dump(rk), "replay"), case.get("stage", "replay"))
+
+
 def replay(ctx, payload):
     case = payload.get("case", {})
     fx = case.get("fixture")
@@ -1420,11 +2230,17 @@ def replay(ctx, payload):
         return None
     sub = type(ctx)(ctx.prop, "quick", ctx.seed)
     with common.scratch_dir(), silence():
-        o, r = load_fixture(fx)
+        if "bpSeed" in case:
+            o, r, _ = bp_fixture(fx, random.Random(case["bpSeed"]), os.path.join(os.getcwd(), "bp-replay"))
+        else:
+            o, r = load_fixture(fx)
         ops = [op if op[0] != "swapAssemblies" else [op[0], op[1], op[2], o] for op in case.get("ops", [])]
-        apply_ops(r, ops, o)
-        refresh_derived(r)
-        with contextlib.suppress(LoadFailed, WriteRejected):
-            roundtrip_checks(sub, fx, o, r, case.get("ops", []), "replay", deep=True)
+        if "multi" in case:
+            replay_multi(sub, fx, o, r, case)
+        else:
+            apply_ops(r, ops, o)
+            refresh_derived(r)
+            with contextlib.suppress(LoadFailed, WriteRejected):
+                roundtrip_checks(sub, fx, o, r, case.get("ops", []), "replay", deep=True, from_file="bpSeed" in case)
     hit = [f for f in sub.failures if f.key == payload.get("key")]
     return hit[0].to_json() if hit else None
